@@ -13,6 +13,8 @@ type propSpec struct {
 	Scope     Scope // guard-inventory scope
 	FrameScope Scope // transcript/sponge operation inventory scope
 	MinFrame  int
+	StoreScope Scope
+	MinStores int
 	MinFuncs  int
 	Check     func(r *Run)
 	NeedSSA   bool
@@ -70,6 +72,10 @@ func runEmit(prop string) int {
 	if prop == "C07" {
 		checkSamplerInventory(r)
 		fmt.Println("C07: wrote sampler inventory")
+	}
+	if len(spec.StoreScope.Include) > 0 {
+		r.EmitStoreRef(prop+"_stores.json", spec.StoreScope)
+		fmt.Println(prop + ": wrote store-guard reference")
 	}
 	if len(spec.FrameScope.Include) > 0 {
 		r.EmitFrameRef(prop+"_frame.json", spec.FrameScope)
